@@ -289,7 +289,9 @@ impl SubscriptionActor {
         receiver: &mut mpsc::Receiver<SubscriptionRequest>,
     ) -> Result<(), DeleteError> {
         if self.deleted {
-            return Ok(());
+            // Somebody else's deletion got here first: for this caller there is
+            // nothing left to delete.
+            return Err(DeleteError::Closed);
         }
 
         self.deleted = true;
@@ -333,8 +335,10 @@ impl SubscriptionActor {
         // Unregister the subscription from push.
         self.push_registry.set(self.info.name.clone(), None);
 
+        // The deletions that arrived while this one was under way have lost the race:
+        // the subscription is gone, and only one caller can have deleted it.
         for responder in pending_deletes {
-            let _ = responder.send(Ok(()));
+            let _ = responder.send(Err(DeleteError::Closed));
         }
 
         Ok(())
